@@ -1809,3 +1809,56 @@ def call_method(interp, recv, name, args, kwargs, node=None):   # noqa: F811
 
 _MODELS[_copy.deepcopy] = lambda interp, args, kwargs, node: (interp.ctx.use(A('copy.deepcopy', 'copy.deepcopy(x) returns a value equal to x that shares no mutable object with x')), deep_copy_value(interp, args[0]))[1]
 _MODELS[_copy.copy] = _MODELS[_copy.deepcopy]
+
+
+class SymDict(Sym):
+    """An insertion-ordered mapping whose keys may be symbolic strings: an ordered list of (key, value) pairs."""
+    mutable = True
+
+    def __init__(self, pairs):
+        self.pairs = list(pairs)
+
+
+class SDataFrame(Sym):
+    """What fsic hands to pandas.DataFrame: ordered columns (name, data) and the index object (the table itself is pandas' business)."""
+    mutable = True
+
+    def __init__(self, columns, index):
+        self.columns = list(columns)
+        self.index = index
+
+
+def _install_pandas_models():
+    try:
+        import pandas as pd
+    except ImportError:      # pragma: no cover
+        return
+
+    def model_dataframe(interp, args, kwargs, node):
+        interp.ctx.use(A('pandas.DataFrame', 'DataFrame(mapping, index=span) has one column per key in insertion order holding that value, indexed by `index`'))
+        data = args[0] if args else kwargs.get('data')
+        if isinstance(data, SymDict):
+            cols = list(data.pairs)
+        elif isinstance(data, dict):
+            cols = list(data.items())
+        else:
+            raise OutOfSubset('DataFrame of a non-mapping')
+        return SDataFrame(cols, kwargs.get('index'))
+    _MODELS[pd.DataFrame] = model_dataframe
+
+
+_install_pandas_models()
+
+_si3 = setitem
+
+
+def setitem(interp, obj, idx, v, node=None):   # noqa: F811
+    if isinstance(obj, SDataFrame):
+        interp.ctx.use(A('pandas.DataFrame.setitem', "df[name] = series appends a column (or replaces the column of that name)"))
+        for i, (k, _) in enumerate(obj.columns):
+            if not is_sym(k) and not is_sym(idx) and k == idx:
+                obj.columns[i] = (k, v)
+                return
+        obj.columns.append((idx, v))
+        return
+    return _si3(interp, obj, idx, v, node)
